@@ -30,10 +30,17 @@ def cases(tier, seed):
     out = []
     for k in range(n):
         path = rng.choice(["TTFs", "TTFsFromDS", "TTFsFromDS", "OTFsFromDS", "OTFsFromDS"])
+        # one case in eight: TrueType from a designspace whose sparse master is a UFO of its own holding a composite (kept as a
+        # composite: same 2x2 everywhere, nothing skipped or flattened) without its bases
+        force_sa = k % 8 == 5
+        force_nested = k % 8 == 2       # (the directed patterns below get a fixed share of the cases, whatever the random draws)
+        force_directed = k % 8 == 6
+        if force_sa or force_nested or force_directed:
+            path = "TTFsFromDS"
         kinds = ["line", "cubic", "mixed"] if path == "OTFsFromDS" else ["line", "quad", "cubic", "mixed"]
         base = gen.glyphset(rng, nmin=3, nmax=6, max_depth=2, kinds=kinds, palette=c02.PALETTE_TT, unicodes=True)
         directed = None
-        if path == "TTFsFromDS" and rng.random() < 0.35:
+        if path == "TTFsFromDS" and not force_sa and not force_nested and (force_directed or rng.random() < 0.2):
             # a sparse master that holds a MIXED glyph and a composite of the same base but not the base itself: the base is
             # interpolated on the fly when the mixed glyph is decomposed (before the curve conversion) and again when a
             # post filter decomposes the composite (after it)
@@ -47,7 +54,7 @@ def cases(tier, seed):
                               "anchors": [], "w": 500 * P, "h": 0, "u": []}
                 directed = b_
         nested = None
-        if path == "TTFsFromDS" and not directed and rng.random() < 0.3:
+        if path == "TTFsFromDS" and not directed and not force_sa and (force_nested or rng.random() < 0.15):
             # flattenComponents with a sparse master that holds a NESTED composite but not the intermediate composite it goes
             # through (barcolon = bar + colon, colon = dot + dot; the sparse layer has barcolon only)
             simple = [n_ for n_ in sorted(base) if base[n_]["cs"] and not base[n_]["comps"]]
@@ -60,12 +67,20 @@ def cases(tier, seed):
                                      "anchors": [], "w": 600 * P, "h": 0, "u": []}
                 nested = (d_, b_)
         nm = rng.choice([2, 3])
-        masters = [base] + [gen.perturb_master(rng, base, palette=c02.PALETTE_TT, change_2x2=0.12 if path != "OTFsFromDS" else 0.0)
+        masters = [base] + [gen.perturb_master(rng, base, palette=c02.PALETTE_TT, change_2x2=0.12 if path != "OTFsFromDS" and not force_sa else 0.0)
                             for _ in range(nm - 1)]
         sparse = None
-        if path != "TTFs" and rng.random() < 0.4:
+        want_standalone = False
+        if path != "TTFs" and (force_sa or rng.random() < 0.4):
             names = sorted(base)
             pick = [n_ for n_ in names if rng.random() < 0.4] or names[:1]
+            want_standalone = force_sa or rng.random() < 0.5
+            if want_standalone:
+                # a composite that stays a composite, WITHOUT its bases: the sparse master needs placeholders for them
+                pure = [n_ for n_ in names if base[n_]["comps"] and not base[n_]["cs"]]
+                if pure:
+                    c_ = rng.choice(pure)
+                    pick = sorted((set(pick) | {c_}) - {cc["b"] for cc in base[c_]["comps"]})
             sp = gen.perturb_master(rng, {n_: base[n_] for n_ in names}, change_2x2=0.0)
             sparse = {n_: sp[n_] for n_ in pick}
         if nested:
@@ -91,10 +106,10 @@ def cases(tier, seed):
         kwargs = {}
         if path == "OTFsFromDS":
             kwargs["optimizeCFF"] = rng.choice([0, 1])     # (subroutinisation is not meant for interpolatable masters)
-        if "TTF" in path and (nested or rng.random() < 0.4):
+        if "TTF" in path and not force_sa and (nested or rng.random() < 0.4):
             kwargs["flattenComponents"] = True
         skip = []
-        if path != "TTFs" and rng.random() < 0.3:
+        if path != "TTFs" and not force_sa and rng.random() < 0.3:
             skip = gen.subset(rng, sorted(base), 0.25)
             if len(skip) == len(base):
                 skip = skip[:-1]
@@ -112,7 +127,7 @@ def cases(tier, seed):
                 post = [{"name": "decomposeComponents", "pre": False, "include": gen.subset(rng, comps_, 0.6) or comps_[:1]}]
         out.append({"cid": f"c09-{seed}-{k}", "lib": rng.choice(["ufoLib2", "defcon"]), "path": path, "masters": masters,
                     "sparse": sparse, "kwargs": kwargs, "skip": skip, "post": post,
-                    "sparseUfo": bool(sparse) and not directed and rng.random() < 0.4})
+                    "sparseUfo": bool(sparse) and not directed and not nested and want_standalone})
     return out
 
 
